@@ -404,3 +404,101 @@ func aztecDecodeBits(bits []bool, ws int, feat map[string]int) ([]byte, int, err
 	}
 	return out, p, nil
 }
+
+// AztecSimpleBits returns the length in bits of one valid high-level encoding of b —
+// mode latches, the two-character Punct codes and binary shifts only, no other
+// shifts — found by dynamic programming over (position, mode).  It is an upper bound
+// on the shortest encoding: whatever fits with this many bits is representable.
+func AztecSimpleBits(b []byte) int {
+	const inf = 1 << 60
+	latch := [5][5]int{{0, 5, 5, 10, 5}, {9, 0, 5, 10, 5}, {5, 5, 0, 5, 10}, {5, 10, 10, 0, 10}, {4, 9, 9, 14, 0}} // U L M P D
+	width := [5]int{5, 5, 5, 5, 4}
+	var single [5][256]bool
+	for m, tbl := range [][]string{aztecUpper[:], aztecLower[:], aztecMixed[:], aztecPunct[:], aztecDigit[:]} {
+		for _, s := range tbl {
+			if len(s) == 1 {
+				single[m][s[0]] = true
+			}
+		}
+	}
+	pair := func(a, c byte) bool {
+		return (a == '\r' && c == '\n') || (c == ' ' && (a == '.' || a == ',' || a == ':'))
+	}
+	n := len(b)
+	dp := make([][5]int, n+2)
+	for i := range dp {
+		dp[i] = [5]int{inf, inf, inf, inf, inf}
+	}
+	dp[0][0] = 0
+	lower := func(p *int, v int) {
+		if v < *p {
+			*p = v
+		}
+	}
+	for i := 0; i < n; i++ {
+		// latches
+		cur := dp[i]
+		for a := 0; a < 5; a++ {
+			for c := 0; c < 5; c++ {
+				if dp[i][a] < inf {
+					lower(&cur[c], dp[i][a]+latch[a][c])
+				}
+			}
+		}
+		if cur == [5]int{inf, inf, inf, inf, inf} {
+			continue // inside a binary run
+		}
+		inAny := false
+		for m := 0; m < 5; m++ {
+			if single[m][b[i]] {
+				inAny = true
+				if cur[m] < inf {
+					lower(&dp[i+1][m], cur[m]+width[m])
+				}
+			}
+		}
+		if i+1 < n && pair(b[i], b[i+1]) && cur[3] < inf {
+			lower(&dp[i+2][3], cur[3]+5)
+		}
+		// binary shift over b[i:j] for every run end j up to the next 64 bytes or the
+		// end of the bytes that are in no table
+		j := i
+		for j < n {
+			any := false
+			for m := 0; m < 5; m++ {
+				any = any || single[m][b[j]]
+			}
+			if any && (inAny || j > i) {
+				break
+			}
+			j++
+		}
+		if j > i {
+			k := j - i
+			c := 0
+			for k > 0 {
+				q := k
+				if q > 2078 {
+					q = 2078
+				}
+				c += 5 + 8*q
+				if q <= 31 {
+					c += 5
+				} else {
+					c += 16
+				}
+				k -= q
+			}
+			for _, m := range []int{0, 1, 2} { // B/S exists in Upper, Lower and Mixed
+				if cur[m] < inf {
+					lower(&dp[j][m], cur[m]+c)
+				}
+			}
+		}
+	}
+	best := inf
+	for m := 0; m < 5; m++ {
+		lower(&best, dp[n][m])
+	}
+	return best
+}
